@@ -41,7 +41,8 @@ type config struct {
 	Ignore   string   `json:"ignore_regex"`
 }
 
-var names = []string{"a.log", "b.log", "x.log", "a.txt"}
+// (file names are byte strings: '#', '?' and '%' mean nothing special in them)
+var names = []string{"a.log", "b.log", "x.log", "a.txt", "a#1.log", "a%41.log", "aA.log", "a?b.log"}
 var dirs = []string{"d0", "d1"}
 
 func logCount() int {
@@ -303,6 +304,7 @@ func TestC18(t *testing.T) {
 		{Op: "rename", Path: "d0/a.log", To: "d0/b.log"}, {Op: "rename", Path: "d0/a.log", To: "d0/a.txt"}, {Op: "rename", Path: "d1/a.txt", To: "d1/a.log"}, {Op: "rename", Path: "d0/b.log", To: "d0/a.log"},
 		{Op: "mkdir", Path: "d0/c.log"}, {Op: "rmdir", Path: "d0/c.log"}, {Op: "create", Path: "d0/a.log"},
 		{Op: "dir-to-file", Path: "d0/c.log"}, {Op: "file-to-dir", Path: "d0/b.log"}, {Op: "dir-to-file", Path: "d0/b.log"},
+		{Op: "create", Path: "d0/a#1.log"}, {Op: "create", Path: "d0/a%41.log"}, {Op: "create", Path: "d0/aA.log"},
 	}
 	maxLen := ev.Pick(2, 3)
 	var rec func(p []step, c config)
